@@ -12,7 +12,10 @@ PROPS_FILE = 'theories/Props/C16.v'
 THEOREM = 'C16_population_mirrors_tree'
 RULE = ('1-3 populations of one ResourceMap from real temporary directory trees (depth <= 4, '
         'file names with 0-2 dots, directory names with and without a dot, empty '
-        'directories), each with 1-3 rules (rule directory existing, nested in another '
+        'directories; 25% of the directories hold a FIFO, a symbolic link to a file, to a '
+        'directory or to nothing), each with 1-3 rules (rule directory existing, a FIFO / a '
+        'link to a file (ValueError), a link to a directory (populated through the link), a '
+        'broken link (skipped), nested in another '
         "rule's directory, missing 12%, a regular file 6%; extension filters 45%; distinct "
         'extra arguments per rule), nest_on_conflict / trim_extensions drawn independently at '
         'construction and per call (None = fall back); the same root is populated again in '
@@ -56,7 +59,23 @@ def gen_tree(rng, depth):
             n = rng.choice(DIR_NAMES)
             if n not in t['d']:
                 t['d'][n] = gen_tree(rng, depth - 1)
+    if rng.random() < 0.25:
+        # an entry that is neither a plain file nor a plain directory
+        kind = rng.choice(SPECIALS)
+        t['o'] = [[SPECIAL_NAME[kind], kind]]
     return t
+
+
+SPECIALS = ['fifo', 'fifo', 'lnf', 'lnd', 'lnx']
+SPECIAL_NAME = {'fifo': 'ff', 'lnf': 'lf.png', 'lnd': 'ld', 'lnx': 'lx'}
+LINK_TARGET = {'d': {}, 'f': ['t.png', 'u.txt']}     # what a link to a directory points to
+
+
+def special_paths(t, prefix=()):
+    out = [[prefix + (n,), k] for n, k in t.get('o', [])]
+    for n, c in t['d'].items():
+        out += special_paths(c, prefix + (n,))
+    return out
 
 
 def dir_paths(t, prefix=()):
@@ -131,7 +150,10 @@ def gen_case(rng):
         rules = []
         for _ in range(rng.choice([1, 1, 2, 3])):
             r = rng.random()
-            if r < 0.12:
+            sps = special_paths(t)
+            if r < 0.16 and sps:
+                path = list(rng.choice(sps)[0])
+            elif r < 0.12:
                 path = list(rng.choice(dps)) + ['nowhere'] if rng.random() < 0.5 else ['nowhere']
             elif r < 0.18 and fps:
                 path = list(rng.choice(fps))
@@ -195,6 +217,19 @@ def make_tree(path, t):
             f.write('x')
     for n, c in t['d'].items():
         make_tree(os.path.join(path, n), c)
+    for n, kind in t.get('o', []):
+        p = os.path.join(path, n)
+        if kind == 'fifo':
+            os.mkfifo(p)
+        elif kind == 'lnf':
+            os.symlink(os.path.join(TARGETS[0], 'file.png'), p)
+        elif kind == 'lnd':
+            os.symlink(os.path.join(TARGETS[0], 'dir'), p)
+        else:
+            os.symlink(os.path.join(TARGETS[0], 'gone'), p)
+
+
+TARGETS = [None]         # where the symbolic links of the current run point to
 
 
 def truth_entries(base, t):
@@ -207,6 +242,14 @@ def truth_entries(base, t):
         for n, c in node['d'].items():
             out.append(['D', p + '/' + n])
             rec(p + '/' + n, c)
+        for n, kind in node.get('o', []):
+            if kind == 'lnf':
+                out.append(['F', p + '/' + n])
+            elif kind == 'lnd':
+                out.append(['D', p + '/' + n])
+                rec(p + '/' + n, LINK_TARGET)
+            else:
+                out.append(['O', p + '/' + n])
     rec(base, t)
     out[0][1] = base
     return out
@@ -220,6 +263,14 @@ def lookup(t, path):
             cur = cur['d'][n]
         elif n in cur['f'] and i == len(path) - 1:
             return 'file', None
+        elif n in dict(cur.get('o', [])):
+            kind = dict(cur['o'])[n]
+            if kind == 'lnd':
+                cur = LINK_TARGET
+                continue
+            if i == len(path) - 1 and kind in ('fifo', 'lnf'):
+                return 'file', None         # exists and is not a directory
+            return 'missing', None
         else:
             return 'missing', None
     return 'dir', cur
@@ -279,6 +330,11 @@ def run(case):
 
     try:
         glob.iglob = rec_iglob
+        tg = os.path.join(base, 'tg')
+        make_tree(os.path.join(tg, 'dir'), LINK_TARGET)
+        with open(os.path.join(tg, 'file.png'), 'w') as f:
+            f.write('x')
+        TARGETS[0] = tg
         roots = []
         for i, t in enumerate(case['roots']):
             rp = os.path.join(base, 'r%d' % i)
@@ -344,7 +400,7 @@ def run(case):
                         ds = [list(e) for e in vis if e[0] == 'D']
                         if ds:
                             ds[0][1] += '/'        # as glob names the directory itself
-                        seqs.append(ds + files)
+                        seqs.append(ds + files + [e for e in vis if e[0] == 'O'])
                 else:
                     truth.append([st])
                     seqs.append([])
@@ -457,13 +513,16 @@ def shrink(case):
 def stats(cases, traces):
     d = dict(cases=len(cases), calls=0, rules=0, rules_missing=0, rules_notdir=0,
              rules_filtered=0, files_built=0, value_errors=0, layered_maps=0,
-             nest_on=0, trim_on=0, repeated_root=0, glob_entries=0, flags_per_call=0)
+             nest_on=0, trim_on=0, repeated_root=0, glob_entries=0, flags_per_call=0,
+             special_entries_seen=0, rule_paths_special=0)
     for c, t in zip(cases, traces):
         prev = None
         for cl in c['calls']:
             d['calls'] += 1
             d['rules'] += len(cl['rules'])
             d['rules_filtered'] += sum(1 for r in cl['rules'] if r['exts'])
+            d['rule_paths_special'] += sum(1 for r in cl['rules']
+                                           if r['path'][-1] in SPECIAL_NAME.values())
             nest = cl['call'][0] if cl['call'][0] is not None else (
                 cl['ctor'][0] if cl['ctor'][0] is not None else True)
             trim = cl['call'][1] if cl['call'][1] is not None else cl['ctor'][1]
@@ -479,4 +538,5 @@ def stats(cases, traces):
             d['rules_notdir'] += sum(1 for x in o['truth'] if x[0] == 'file')
             d['layered_maps'] += _layered(o['tree'])
             d['glob_entries'] += sum(len(s) for s in o['seqs'])
+            d['special_entries_seen'] += sum(1 for s in o['seqs'] for e in s if e[0] == 'O')
     return d
